@@ -2,11 +2,14 @@
    Model/Api.v is the decoder object as a state machine over its entry points; gen/DecoderReset.v carries what the
    source's reset()/CheckIntegrity()/PeekFileId() do (translated on every run).  Proved: at every sequence boundary every
    per-sequence component is initial, so the next operation sees a state that is a function of the remaining stream, the
-   buffer fill, the byte counter and the listener log only.  Not yet a theorem (decided per run by correspondence and by the
-   direct history-vs-fresh oracle): that the byte counter and the event log do not influence the decoded sequence. *)
+   buffer fill, the byte counter and the listener log only -- and none of these three influences what Decode returns
+   (C07_history_independence, a relational proof through every function of the decoder model), so at a boundary Decode returns
+   exactly what a fresh decoder over the remaining stream returns (C07_same_as_fresh).  Errors are compared by class, io.EOF
+   and io.ErrUnexpectedEOF being one class (which of the two a cut-off stream yields does depend on the buffer fill: known
+   finding eof_kind_depends_on_chunking). *)
 From Coq Require Import NArith List Bool.
 Import ListNotations.
-From Fit Require Import Model.Api Proofs.ApiProofs.
+From Fit Require Import Model.Api Model.Crc Proofs.ApiProofs Proofs.IntegrityModel Proofs.ApiIndependence.
 Open Scope N_scope.
 
 (* the source clears every per-sequence table in reset() (false on the pinned tree before the fix: commits 964b17b / 2753899) *)
@@ -50,6 +53,25 @@ Theorem C07_error_is_sticky : forall a e o, a_err a = Some e -> (forall bs c, o 
   fst (api_step a o) = a /\ (snd (api_step a o) = RErr e \/ snd (api_step a o) = RBool false \/ snd (api_step a o) = RIntegrity 0 (Some e)).
 Proof. exact error_is_sticky. Qed.
 Print Assumptions C07_error_is_sticky.
+
+(* two decoder objects whose states differ at most in byte counter, buffer fill and listener log *)
+Theorem C07_history_independence : forall a b, a_err a = None -> a_err b = None -> a_once a = false -> a_once b = false ->
+  a_cfg a = a_cfg b -> 765 <= c_bufsize (a_cfg a) -> dsim (a_s a) (a_s b) ->
+  match snd (api_step a ADecode), snd (api_step b ADecode) with
+  | RFit f, RFit g => f = g /\ dsim (a_s (fst (api_step a ADecode))) (a_s (fst (api_step b ADecode)))
+  | r1, r2 => res_class r1 = res_class r2 /\ (forall f, r1 <> RFit f) /\ (forall f, r2 <> RFit f)
+  end.
+Proof. exact decode_is_history_independent. Qed.
+Print Assumptions C07_history_independence.
+
+Theorem C07_same_as_fresh : forall a, boundary a -> bufok (a_s a) -> bytes_ok (s_rest (a_s a)) -> 765 <= c_bufsize (a_cfg a) ->
+  let fresh := api_new (a_cfg a) (s_rest (a_s a)) in
+  match snd (api_step a ADecode), snd (api_step fresh ADecode) with
+  | RFit f, RFit g => f = g
+  | r1, r2 => res_class r1 = res_class r2 /\ (forall f, r1 <> RFit f) /\ (forall f, r2 <> RFit f)
+  end.
+Proof. exact same_as_fresh. Qed.
+Print Assumptions C07_same_as_fresh.
 
 Example C07_boundary_exists : boundary (api_new default_cfg [1; 2; 3]).
 Proof. unfold boundary, seq_initial. cbn. repeat split. Qed.
